@@ -179,12 +179,13 @@ type node struct {
 }
 
 type treeGen struct {
-	t       *rapid.T
-	els     []string
-	attrs   []string
-	marker  int
-	noVoidS map[string]bool // names never to generate
-	plain   bool            // canonical attribute syntax only
+	t        *rapid.T
+	els      []string
+	attrs    []string
+	marker   int
+	noVoidS  map[string]bool // names never to generate
+	plain    bool            // canonical attribute syntax only
+	comments bool            // also generate comment leaves (each with its own marker)
 }
 
 func (g *treeGen) textNode() *node {
@@ -211,6 +212,10 @@ func validTreeName(el string) bool {
 
 func (g *treeGen) gen(depth int) *node {
 	if depth <= 0 || rapid.IntRange(0, 3).Draw(g.t, "leaf") == 0 {
+		if g.comments && rapid.IntRange(0, 4).Draw(g.t, "commentLeaf") == 0 {
+			g.marker++
+			return &node{text: fmt.Sprintf("<!--MK%04dQ-->", g.marker)}
+		}
 		return g.textNode()
 	}
 	el := rapid.SampledFrom(g.els).Draw(g.t, "tel")
@@ -257,6 +262,7 @@ func (n *node) write(sb *strings.Builder) {
 }
 
 type treeOpts struct {
+	comments bool
 	extraEls []string
 	exclude  map[string]bool
 	depth    int
@@ -275,6 +281,7 @@ func genTree(t *rapid.T, m *Model, o *treeOpts) string {
 		g.els = append(g.els, o.extraEls...)
 		g.els = append(g.els, o.extraEls...)
 		g.noVoidS = o.exclude
+		g.comments = o.comments
 		if o.depth > 0 {
 			depth = o.depth
 		}
